@@ -46,6 +46,22 @@ add("C10", "exhaustive enumeration of (interface oneway x method lists over onew
     "Interface oneway x all method lists of length <= 1 over 38 forms, pairs over 12 (thorough 38) forms, triples over 8 forms, each plain / constant first / constant between / same method name; oneway flags in the returned tree, Warnings on `oneway` keywords and Errors on return types are compared with the reference.",
     SEMA_NOTE, "DESIGN.md section 4, C10")
 
+add("C15", "exhaustive enumeration of generated trees x filter levels x predicate families against a reference visit order",
+    "Every tree of the listed document families (types nested to depth 3/4 in 4 positions and in parcelable constants, member sequences, argument lists, headers, names, seeds) x 3 filter levels x all predicates of the forms 'is the k-th visited symbol' (stateful), 'is of kind K', 'name equals N'; walk / filter / find and the type, method and argument walkers are compared with the reference order derived from the document model.",
+    "trusted: reference visit order (model/traverse.rs) and the token table for name spans", "DESIGN.md section 4, C15")
+add("C16", "exhaustive enumeration of every (line, column) position of every generated document x layout x filter level against the reference order and token-table spans",
+    "Documents of the C15 families in layouts with line breaks and multi-byte text before / inside names x every character position, positions past line ends, column 0, line 0 and last+1 x 3 filter levels; find_symbol_at_line_col must return the first symbol in reference order whose expected name span contains the position (inclusive), or nothing.",
+    "trusted: token table spans, grapheme-cluster columns via unicode-segmentation", "DESIGN.md section 4, C16")
+add("C17", "exhaustive enumeration of (item kind x package depth x referencing position x nesting x written form) five-file projects",
+    "All 3 x 3 x 4 x 4 x (2-3) configurations of a five-file project (target, suffix-named sibling, same-named item in another package, two referrers); get_qualified_name / get_name of every symbol of every file and Aidl::get_key are compared with the statement.",
+    "trusted: document model, reference resolution rule; files whose traversal differs from the reference are skipped (C15)", "DESIGN.md section 4, C17")
+add("C18", "exhaustive enumeration of (construct x situation x doc shape x style x EOL) against an expected documentation string built from the doc model",
+    "Every documentable construct (20 instances over three host documents, annotated and plain) x 9 situations x 326 doc shapes (quick: all shapes for the plain doc-comment situation, 6 representatives for the others; thorough: all for all) x 4 rendering styles x LF/CRLF; the doc field of every documentable construct of the returned tree is compared with the expectation (None wherever the comment does not directly precede).",
+    "trusted: doc model / renderer (model/docs.rs); statement's restrictions on comment content are the space's", "DESIGN.md section 4, C18")
+add("C19", "exhaustive enumeration of trees over the optional-field presence product and all resolved kinds, RON round trip as oracle",
+    "Every parse-stage and validated tree of the C02 document space, of the full presence product of optional fields (with empty / multi-paragraph / non-ASCII / CRLF documentation) and of a multi-file project reaching every TypeKind is serialised with ron and read back; equality with the original is required.",
+    "trusted: ron 0.7, serde_json (triage only)", "DESIGN.md section 4, C19")
+
 NOT_APPLICABLE = {}
 
 def main():
